@@ -31,9 +31,12 @@ MC_INV = ("INVARIANT ReadBackEqual\nINVARIANT DeviceSingleBreeze\nINVARIANT Clie
           "PROPERTY WriteIsUpd\nPROPERTY NoWriteWithoutChange\nPROPERTY ClearedByApply\n")
 
 
-def caps_body(prof, five_level=False):
+def caps_body(prof, five_level=False, rich=False):
     recs = b""
     n = 0
+    if rich:                                    # the unit also has an indoor humidity sensor and energy statistics: its refresh is four exchanges
+        recs += bytes([0x1F, 0x02, 1, 2, 0x16, 0x02, 1, 3])
+        n += 2
     for pid in sorted(prof):
         val = (2 if five_level else 1) if pid == PRATE else 1
         recs += pid.to_bytes(2, "little") + bytes([1, val])
@@ -42,11 +45,12 @@ def caps_body(prof, five_level=False):
     return bytes([0xB5, n + 1]) + recs
 
 
-def make_device(prof, five_level=False):
+def make_device(prof, five_level=False, rich=False):
     props = {}
     for pid in prof:
         props[pid] = bytes([1, 0]) if pid == PIECO else bytes([INIT.get(pid, 0)])
-    d = acdev.ACModel(caps_pages=[caps_body(prof, five_level)], props=props)
+    extra = dict(energy=bytes([0xC1, 0x21, 0x01, 0x44, 0, 0, 0x12, 0x34, 0, 0, 0, 0, 0, 0, 0, 0x56, 0, 7, 0x89, 0]), humidity=bytes([0xC1, 0x21, 0x01, 0x45, 47, 0, 0, 0])) if rich else {}
+    d = acdev.ACModel(caps_pages=[caps_body(prof, five_level, rich)], props=props, **extra)
     d.strict = True
     return d
 
@@ -62,13 +66,30 @@ def observe(ac):
             "ud": int(ac.vertical_swing_angle), "clean": bool(ac.self_clean_active)}, sum(flags)
 
 
-def replay(hist, prof, *, five_level=False, mid_apply=False):
+def replay(hist, prof, *, five_level=False, mid_apply=False, rich=False, lost_state=False):
     from msmart.device import AirConditioner as AC
     AX = AC
     vloop.install_clock()
     loop = vloop.new_loop()
     net = vloop.Net(loop)
-    dev = make_device(prof, five_level)
+    dev = make_device(prof, five_level, rich)
+    if lost_state:
+        # the answer to every second state command (0x40) of an apply() is lost (the unit executes it and stays reachable); the property protocol of
+        # that apply() is the same as with a prompt unit: the write of what changed still goes out, once
+        orig_handle = dev.handle
+        cnt = {"n": 0}
+
+        def handle(f):
+            out = orig_handle(f)
+            if len(f) > 10 and f[10] == 0x40 and f[9] == 2:
+                key = bytes(f)                       # retransmissions of one command are the same bytes: all of them go unanswered
+                if key not in cnt:
+                    cnt["n"] += 1
+                    cnt[key] = cnt["n"] % 2 == 1
+                if cnt[key]:
+                    return []
+            return out
+        dev.handle = handle
     ldev = landev.LanDevice(loop, net, dev, version=2)
     ldev.respond = lambda tr, packets: [loop.call_later(0.05, tr.feed, p) for p in packets]     # every answer takes 50 ms (virtual)
     ac = AC(ip="10.0.0.9", port=6444, device_id=0x1122334455)
@@ -214,7 +235,7 @@ def judge(ctx, runs, canaries=True):
         for r in rs:
             for k, e in enumerate(r["events"]):
                 if e["raised"]:
-                    ctx.violation(f"{pname}: {e['a']} raised {e['raised']}", "a public call raised", {"profile": pname, "five": r["five"], "hist": r["hist"][:k + 1]})
+                    ctx.violation(f"{pname}: {e['a']} raised {e['raised']}", "a public call raised", {"profile": pname, "five": r["five"], "rich": r.get("rich", False), "lost": r.get("lost", False), "hist": r["hist"][:k + 1]})
         traces = [{"events": r["events"]} for r in rs]
         cans = []
         if canaries and pname in ("Modern", "LegacyBoth"):
@@ -251,7 +272,7 @@ def judge(ctx, runs, canaries=True):
             at = int(clause.split(" @event ")[1])
             cl = clause.split(" @event ")[0]
             ctx.violation(f"{pname}: history {[(s['a'], s['v']) for s in r['hist'][:at]]}"[:300], cl,
-                          {"profile": pname, "five": r["five"], "mid_apply": r.get("mid", False), "hist": r["hist"], "clause": cl,
+                          {"profile": pname, "five": r["five"], "mid_apply": r.get("mid", False), "rich": r.get("rich", False), "lost": r.get("lost", False), "hist": r["hist"], "clause": cl,
                            "breeze_legacy_both": cl.startswith("breeze mode differs (refresh)") and pname == "LegacyBoth"})
 
 
@@ -279,7 +300,10 @@ def run(ctx: Ctx) -> int:
         for k, h in enumerate(directed(prof) + hs3 + hs + hs2):
             five = (k % 2 == 1)
             mid = (k % 3 == 2)
-            runs.append({"profile": pname, "five": five, "mid": mid, "hist": h, "events": replay(h, prof, five_level=five, mid_apply=mid)})
+            rich = (k % 4 == 1)
+            lost = (k % 5 == 3) and not mid
+            runs.append({"profile": pname, "five": five, "mid": mid, "rich": rich, "lost": lost, "hist": h,
+                         "events": replay(h, prof, five_level=five, mid_apply=mid, rich=rich, lost_state=lost)})
             ctx.count_distinct((pname, five, tuple((s["a"], s["v"]) for s in h)))
     ctx.extra["tlc_generated_histories"] = ngen
     judge(ctx, runs)
@@ -288,7 +312,7 @@ def run(ctx: Ctx) -> int:
                 "b0_frames": [bytes(f).hex() for e in r0["events"] for f in e["b0"]][:3], "attrs_after": r0["events"][-1]["attrs"]})
     return ctx.finish(
         rule="capability profiles {breeze control + everything, legacy away+breezeless, legacy away + rate, legacy breezeless + iECO + angle, no "
-             "properties, breeze control alongside legacy ids} x {2-level, 5-level rate select}; histories over {breeze_away/mild/breezeless/ieco/beep "
+             "properties, breeze control alongside legacy ids} x {2-level, 5-level rate select} x {plain unit, unit that also has humidity / energy polling} x {prompt unit, unit whose answer to every second state command is lost}; histories over {breeze_away/mild/breezeless/ieco/beep "
              "on/off, every rate select value, every swing angle, apply, refresh, get_capabilities, start_self_clean}: all 4-call histories "
              "starting with get_capabilities (reduced value sets), simulated 9-12-call histories (full enum sets), directed breeze histories; "
              "distinct = (profile, rate variant, history)",
@@ -300,8 +324,8 @@ def replay_cmd(ctx, path):
     import json
     c = json.load(open(path))["case"]
     prof = PROFILES[c["profile"]]
-    runs = [{"profile": c["profile"], "five": c.get("five", False), "mid": c.get("mid_apply", False), "hist": c["hist"],
-             "events": replay(c["hist"], prof, five_level=c.get("five", False), mid_apply=c.get("mid_apply", False))}]
+    runs = [{"profile": c["profile"], "five": c.get("five", False), "mid": c.get("mid_apply", False), "rich": c.get("rich", False), "lost": c.get("lost", False), "hist": c["hist"],
+             "events": replay(c["hist"], prof, five_level=c.get("five", False), mid_apply=c.get("mid_apply", False), rich=c.get("rich", False), lost_state=c.get("lost", False))}]
     judge(ctx, runs, canaries=False)
     return ctx.finish(rule="replay of one recorded history")
 
